@@ -2,6 +2,7 @@
 # Offline setup: warm the Go build cache by building every check binary once.
 . /verif/env.sh
 mkdir -p /verif/bin /verif/.work /verif/evidence /verif/replays
+/verif/tools/gen_bk.sh || exit 1
 python3 /verif/tools/mkoverlay.py /verif/.work/overlay.json || exit 1
 cd /repo || exit 1
 for d in /verif/src/cmd/*/; do
